@@ -770,7 +770,7 @@ func (an *analysis) locate(file string, line int) (*funcSkel, int) {
 }
 
 func (c *ctx) serve(input string, class string) {
-	if c.stalls[""] >= maxStalls || !c.begin("serve "+common.HexS(input)) {
+	if c.stalls[""] >= maxStalls || !c.begin("serve "+hexz(input)) {
 		return
 	}
 	t0 := time.Now()
@@ -781,7 +781,7 @@ func (c *ctx) serve(input string, class string) {
 	if o.stalled {
 		c.stalls[""]++
 	}
-	c.record("serve "+common.HexS(input), o, class)
+	c.record("serve "+hexz(input), o, class)
 }
 
 func (c *ctx) servex(mode string, k int, stanzas []string, class string) int {
@@ -807,7 +807,7 @@ func (c *ctx) servex(mode string, k int, stanzas []string, class string) int {
 }
 
 func (c *ctx) helper(h *helper, typ, reply, class string) {
-	if c.stalls[h.name] >= maxStalls || !c.begin("helper "+common.HexS(h.name)+" "+typ+" "+common.HexS(reply)) {
+	if c.stalls[h.name] >= maxStalls || !c.begin("helper "+common.HexS(h.name)+" "+typ+" "+hexz(reply)) {
 		return
 	}
 	t0 := time.Now()
@@ -818,7 +818,7 @@ func (c *ctx) helper(h *helper, typ, reply, class string) {
 	if o.stalled {
 		c.stalls[h.name]++
 	}
-	c.record("helper "+common.HexS(h.name)+" "+typ+" "+common.HexS(reply), o, class)
+	c.record("helper "+common.HexS(h.name)+" "+typ+" "+hexz(reply), o, class)
 }
 
 // helperp: a helper against a peer that answers successive requests with successive pages.
@@ -861,7 +861,7 @@ func (c *ctx) replay(lines []string) error {
 			if len(f) != 3 {
 				return fmt.Errorf("bad replay line %q", l)
 			}
-			b, err := common.UnHex(f[2])
+			b, err := unhexz(f[2])
 			if err != nil {
 				return err
 			}
@@ -924,7 +924,7 @@ func (c *ctx) replay(lines []string) error {
 				return fmt.Errorf("bad replay line %q", l)
 			}
 			n, err1 := common.UnHex(f[2])
-			b, err2 := common.UnHex(f[4])
+			b, err2 := unhexz(f[4])
 			h := helperByName(string(n))
 			if err1 != nil || err2 != nil || h == nil {
 				return fmt.Errorf("bad replay line %q", l)
